@@ -394,6 +394,137 @@ theorem up_segment_run (b : Nat) (top : ASE) (r : List ASE) (x : ASE)
     simp [outSide, hopOf, hsrc]
   rw [e2]
 
+/-- **up segment followed by down segment, joined at a common AS** (core AS or, for shortcuts,
+    any AS both segments pass through): from a host of the AS of `topU` up to the AS of `xU`,
+    which is also the AS of `xD`, and down to the AS of `lastD` -/
+theorem up_down_run (coreD : Bool) (tsD : Nat)
+    (bU : Nat) (topU : ASE) (rU : List ASE) (xU : ASE)
+    (hcU : ChainUp mac net false ts bU (topU :: (rU ++ [xU])))
+    (βD : Nat) (xD : ASE) (midD : List ASE) (lastD : ASE)
+    (hcD : Chain mac net coreD tsD βD (xD :: (midD ++ [lastD])))
+    (hcoreD : coreD = false)
+    (hjoint : xU.ia = xD.ia)
+    (hsrc : src = topU.ia) (hdst : dst = lastD.ia)
+    (hnd : ((topU :: (rU ++ [xU])).map (·.ia) ++ (midD ++ [lastD]).map (·.ia)).Nodup)
+    (hexpU : ∀ e ∈ topU :: (rU ++ [xU]), expired now ts e.hop.exp = false)
+    (hexpD : ∀ e ∈ xD :: (midD ++ [lastD]), expired now tsD e.hop.exp = false) (fuel : Nat) :
+    ∃ cf, run mac net now src dst (fuel + 3 + rU.length + midD.length) src 0 .host
+        ⟨[], ⟨false, false, updateSegID bU (pfx topU.hop.mac), ts⟩, [], hopOf topU.hop,
+          (rU ++ [xU]).map (fun e => hopOf e.hop),
+          [⟨⟨true, false, βD, tsD⟩, (xD :: (midD ++ [lastD])).map (fun e => hopOf e.hop)⟩]⟩ [] =
+      .delivered dst
+        (((topU.ia, topU.hop.cIn) :: ((firstOf rU xU).ia, (firstOf rU xU).hop.cEg) :: upTrace rU xU) ++
+         ((xD.ia, xD.hop.cEg) :: ((firstOf midD lastD).ia, (firstOf midD lastD).hop.cIn) ::
+            downTrace midD lastD)) cf := by
+  subst hcoreD
+  -- distinctness facts
+  have hndU : ((topU :: (rU ++ [xU])).map (·.ia)).Nodup := (List.nodup_append.1 hnd).1
+  obtain ⟨htx, hmidU⟩ := nd_facts topU rU xU hndU
+  have hdisj := (List.nodup_append.1 hnd).2.2
+  have hndD : ((midD ++ [lastD]).map (·.ia)).Nodup := (List.nodup_append.1 hnd).2.1
+  have hUne : ∀ e ∈ topU :: (rU ++ [xU]), e.ia ≠ lastD.ia := by
+    intro e he
+    exact hdisj e.ia (List.mem_map.2 ⟨e, he, rfl⟩) lastD.ia (by simp)
+  have hDne : ∀ e ∈ midD, e.ia ≠ topU.ia ∧ e.ia ≠ lastD.ia := by
+    intro e he
+    refine ⟨fun h => hdisj topU.ia (by simp) e.ia (List.mem_map.2 ⟨e, by simp [he], rfl⟩) h.symm, ?_⟩
+    intro h
+    simp only [List.map_append, List.map_cons, List.map_nil, List.nodup_append] at hndD
+    exact hndD.2.2 e.ia (List.mem_map.2 ⟨e, he, rfl⟩) lastD.ia (by simp) h
+  have hsd : src ≠ dst := by rw [hsrc, hdst]; exact hUne topU (by simp)
+  -- first hop of the up segment
+  have hne : rU ++ [xU] = firstOf rU xU :: (rU ++ [xU]).tail := by
+    cases rU <;> simp [firstOf]
+  have hcU' := hcU
+  rw [hne] at hcU'
+  simp only [ChainUp] at hcU'
+  obtain ⟨hmt, hlt, _⟩ := hcU'
+  obtain ⟨f1, hf1, _, hf1n, hf1i, _⟩ := hlt
+  obtain ⟨_, _, g1, hg1, hg1n, hg1i, _⟩ := hWF _ _ _ hf1
+  rw [hf1n, hf1i] at hg1
+  have hcin0 : topU.hop.cIn ≠ 0 := (hWF _ _ _ hg1).1
+  have hf1' : (net g1.nbr).iface g1.nbrIf = some f1 := by rw [hg1n, hg1i]; exact hf1
+  have hdsl : ∀ s ∈ [(⟨⟨true, false, βD, tsD⟩, (xD :: (midD ++ [lastD])).map (fun e => hopOf e.hop)⟩ : Seg)], s.hops.length ≠ 1 := by
+    intro s hs; simp only [List.mem_singleton] at hs; subst hs; simp
+  have hstep := first_step mac net now src dst false false ts (updateSegID bU (pfx topU.hop.mac))
+    (hopOf topU.hop) ((rU ++ [xU]).map fun e => hopOf e.hop) [(⟨⟨true, false, βD, tsD⟩, (xD :: (midD ++ [lastD])).map (fun e => hopOf e.hop)⟩ : Seg)] g1 hdsl (by simp) (by simp) hsd
+    (by rw [hsrc]; simpa [macOk, hopOf] using hmt.1.symm)
+    (by simpa [hopOf] using hexpU topU (by simp)) rfl rfl
+    (by rw [hsrc]; simpa [outSide, hopOf] using hg1) (by simpa [outSide, hopOf] using hcin0)
+    (hUp _ _ _ hg1) (hSR _ _ _ hg1)
+  have hg1' : (net src).iface (outSide false (hopOf topU.hop)) = some g1 := by
+    rw [hsrc]; simpa [outSide, hopOf] using hg1
+  have h1 : fuel + 3 + rU.length + midD.length = ((fuel + 2 + midD.length) + rU.length) + 1 := by omega
+  rw [h1, run_forward_ext mac net now src dst _ src 0 .host _ _ []
+    (outSide false (hopOf topU.hop)) g1 f1 hstep hg1' (hSR _ _ _ hg1) hf1', hSR _ _ _ hf1, hg1n, hg1i]
+  -- transit ASes of the up segment
+  have hT := up_transits mac net now src dst false false ts hWF hUp hSR rU topU xU bU hcU
+    (fun e he => ⟨by rw [hsrc]; exact (hmidU e he).1,
+      by rw [hdst]; exact hUne e (by simp [he]), hexpU e (by simp [he])⟩)
+  have hrun := run_transits hT [] [(⟨⟨true, false, βD, tsD⟩, (xD :: (midD ++ [lastD])).map (fun e => hopOf e.hop)⟩ : Seg)] (by simp) hdsl (by simp) [hopOf topU.hop] (hopOf xU.hop) []
+    (fuel + 2 + midD.length) ([] ++ [(src, outSide false (hopOf topU.hop)),
+      ((firstOf rU xU).ia, (firstOf rU xU).hop.cEg)]) (by simp) (by simp)
+  simp only [List.length_map, egSeg, Bool.false_eq_true, if_false, List.map_append, List.map_cons,
+    List.map_nil] at hrun ⊢
+  rw [hrun]
+  simp only [mkCur]
+  -- the cross-over AS
+  have hclU : ChainUp mac net false ts (extractBeta (updateSegID bU (pfx topU.hop.mac)) (sig rU)) [xU] := by
+    have := chainUp_drop mac net false ts (topU :: rU) [xU] bU (by simpa using hcU)
+    simpa [sig, extractBeta] using this
+  simp only [ChainUp] at hclU
+  obtain ⟨eL, fL, hfL, hfLlt, _, _, hxUeg⟩ := chainUp_link_last mac net false ts rU topU xU bU hcU
+  have hneD : midD ++ [lastD] = firstOf midD lastD :: (midD ++ [lastD]).tail := by
+    cases midD <;> simp [firstOf]
+  have hcD' := hcD
+  rw [hneD] at hcD'
+  simp only [Chain] at hcD'
+  obtain ⟨hmxD, ⟨fD, hfD, hfDlt, hfDn, hfDi, hxDeg⟩, _⟩ := hcD'
+  obtain ⟨_, _, gD, hgD, _, _, _⟩ := hWF _ _ _ hfD
+  have hxs : xU.ia ≠ src := by rw [hsrc]; exact Ne.symm htx
+  have hxd : xU.ia ≠ dst := by rw [hdst]; exact hUne xU (by simp)
+  have hxstep := xover_step mac net now src dst true ts
+    (extractBeta (updateSegID bU (pfx topU.hop.mac)) (sig rU)) tsD βD xU.ia xU.hop.cEg
+    (hopOf xU.hop) (hopOf xD.hop) ((midD ++ [lastD]).map fun e => hopOf e.hop) []
+    ([hopOf topU.hop] ++ rU.map fun e => hopOf e.hop) [] fL fD (by simp) (by simp) (by simp) (by simp)
+    hxUeg rfl hxs hxd
+    (by simpa [macOk, hopOf] using hclU.1.symm)
+    (by simpa [hopOf] using hexpU xU (by simp)) rfl rfl
+    (by rw [hjoint]; simpa [macOk, hopOf] using hmxD.1.symm)
+    (by simpa [hopOf] using hexpD xD (by simp)) rfl rfl hfL
+    (by rw [hjoint]; simpa [outSide, hopOf] using hfD) (by simpa [outSide, hopOf] using hxDeg)
+    (hUp _ _ _ hfD) (hSR _ _ _ hfD)
+    (by rw [hfLlt, hfDlt]; rfl)
+  have hfD' : (net xU.ia).iface (outSide true (hopOf xD.hop)) = some fD := by
+    rw [hjoint]; simpa [outSide, hopOf] using hfD
+  have h2 : fuel + 2 + midD.length = (fuel + 1 + midD.length) + 1 := by omega
+  simp only [List.map_append, List.map_cons, List.map_nil, List.nil_append] at hxstep ⊢
+  rw [h2, run_forward_ext mac net now src dst _ xU.ia 0 _ _ _ _
+    (outSide true (hopOf xD.hop)) fD gD hxstep hfD' (hSR _ _ _ hfD) hgD, hSR _ _ _ hgD, hfDn, hfDi]
+  -- the down segment
+  have htail := down_tail_run mac net now src dst false tsD hWF hUp hSR xD midD lastD βD hcD hdst hsd
+    (fun e he => ⟨by rw [hsrc]; exact (hDne e he).1, by rw [hdst]; exact (hDne e he).2,
+      hexpD e (by simp [he])⟩)
+    (hexpD lastD (by simp))
+    [⟨⟨false, false, updateSegID (extractBeta (updateSegID bU (pfx topU.hop.mac)) (sig rU))
+        (pfx (hopOf xU.hop).mac), ts⟩, hopOf topU.hop :: (rU.map fun e => hopOf e.hop) ++ [hopOf xU.hop]⟩]
+    (by intro s hs; simp only [List.mem_singleton] at hs; subst hs; simp)
+    [hopOf xD.hop] (by simp) fuel
+  simp only [egSeg, if_true, List.map_append, List.map_cons, List.map_nil, List.singleton_append,
+    List.cons_append, List.nil_append] at htail ⊢
+  have e1 : (hopOf xD.hop).mac = xD.hop.mac := rfl
+  rw [e1, htail]
+  have e2 : ((src, outSide false (hopOf topU.hop)) ::
+            ((firstOf rU xU).ia, (firstOf rU xU).hop.cEg) ::
+              (upTrace rU xU ++
+                [(xU.ia, outSide true (hopOf xD.hop)), ((firstOf midD lastD).ia, (firstOf midD lastD).hop.cIn)]) ++
+          downTrace midD lastD) =
+      ((topU.ia, topU.hop.cIn) :: ((firstOf rU xU).ia, (firstOf rU xU).hop.cEg) ::
+        (upTrace rU xU ++ (xD.ia, xD.hop.cEg) ::
+          ((firstOf midD lastD).ia, (firstOf midD lastD).hop.cIn) :: downTrace midD lastD)) := by
+    simp [outSide, hopOf, hsrc, hjoint]
+  exact ⟨_, by rw [e2]⟩
+
 end
 
 end Scion.Net
